@@ -134,14 +134,15 @@ def verify_function(program, registry, spec, opts=None, work=None, expand_to=Non
     opts = opts or {}
     res = FunctionResult(spec.label)
     res.pending = []
-    fi = program.find_func(spec.target)
+    is_lemma = spec.target.startswith("lemma:")
+    fi = None if is_lemma else program.find_func(spec.target)
     t0 = time.time()
     q0, s0 = STATS.queries, STATS.solver_s
-    if fi is None:
+    if fi is None and not is_lemma:
         res.out_of_reach = f"function {spec.target} not found in the working tree (contract does not bind)"
         return res
-    res.file_sha = program.file_sha.get(fi.module)
-    res.ast_hash = fi.ast_hash()
+    res.file_sha = program.file_sha.get(fi.module) if fi is not None else None
+    res.ast_hash = fi.ast_hash() if fi is not None else None
     work = [[]] if work is None else list(work)
     seen = 0
     while work:
@@ -199,6 +200,12 @@ def verify_function(program, registry, spec, opts=None, work=None, expand_to=Non
             q0, s0 = STATS.queries, STATS.solver_s
         for ob in ctx.obligations:
             res.add(ob, seen)
+        if I.mutable_globals:
+            ctx.obligations.append(Obligation(f"{spec.label}/frame.no-mutable-module-state", "refuted",
+                                              "depends on module-level mutable state (results may depend on the call history): " + ", ".join(sorted(I.mutable_globals))))
+            res.add(ctx.obligations[-1], seen)
+        elif fi is not None:
+            res.add(Obligation(f"{spec.label}/frame.no-mutable-module-state", "discharged"), seen)
         res.covers |= ctx.covers
         res.inlined |= I.inlined
         res.contract_calls |= I.contract_calls
@@ -242,6 +249,12 @@ def strip_formulas(r):
 
 def run_path(I: Interp, ctx: PathCtx, spec, fi, res: FunctionResult):
     c = ContractCtx("verify", I, fi, None)
+    if fi is None:  # a lemma: assumptions and goals only
+        c.label = spec.label
+        spec.fn(c)
+        ctx.cover("pre.sat")
+        res.expected_covers.add("pre.sat")
+        return
     spec.fn(c)
     base = spec.label
     from .replay_driver import concretize_call
